@@ -82,15 +82,15 @@ def proj_lifetime(op, line):
 # ------------------------------------------------------------------------------------------------
 # runs: (crate, mode, {tier: n}); oracle tags listed in `tags` are this property's O-leg findings
 PROPS = {
-    "C01": dict(runs=[("core", "hist", dict(quick=400, thorough=12000))], proj=proj_allowed, tags=["C01"],
+    "C01": dict(runs=[("core", "hist", dict(quick=1500, thorough=40000))], proj=proj_allowed, tags=["C01"],
                 rule="multi-key monotone histories on a random store configuration; gaps drawn from the refill/expiry/cleanup boundary set; all O(n^2) windows of every fixed-limits key summed; non-trivial = the history has both admitted and denied requests; distinct = hash of configuration + request lines"),
-    "C02": dict(runs=[("core", "hist", dict(quick=400, thorough=12000))], proj=proj_allowed, tags=["C02"],
+    "C02": dict(runs=[("core", "hist", dict(quick=1500, thorough=40000))], proj=proj_allowed, tags=["C02"],
                 rule="same histories as C01; every decision compared with an exact integer token bucket (capacity burst, one token per emission interval); non-trivial = both admitted and denied requests present"),
     "C03": dict(runs=[("core", "hist", dict(quick=300, thorough=6000)), ("core", "probe", dict(quick=150, thorough=3000))], proj=proj_fields, tags=["C03"],
                 rule="hist: every response's fields against the bucket (remaining exact, retry_after exact, reset_after >= refill time, reset_after = lifetime asked of the store); probe: sampled responses probed from a re-executed copy of their state (remaining / remaining+1, retry_after / retry_after-1ns, after reset_after = never-seen key)"),
     "C04": dict(runs=[("core", "insert", dict(quick=300, thorough=8000))], proj=proj_resp_trace, tags=["C04"],
                 rule="base history vs the same history with denied / zero-quantity / invalid requests inserted at random positions and times (also under other limits); every base response must be unchanged; rejected requests must issue no store operation and create no entry"),
-    "C05": dict(runs=[("core", "iso", dict(quick=60, thorough=1500))], proj=proj_resp, tags=["C05"],
+    "C05": dict(runs=[("core", "iso", dict(quick=400, thorough=6000))], proj=proj_resp, tags=["C05"],
                 rule="interleaved multi-key history (keys: empty, NUL, Unicode, 64 KiB, one-byte differences; 20-70% noise keys so the table grows and every cleanup trigger fires) vs the solo run of each key on a fresh limiter"),
     "C06": dict(runs=[("core", "storeops", dict(quick=250, thorough=8000)), ("core", "hist", dict(quick=100, thorough=2000))], proj=proj_full, tags=["C06"],
                 rule="raw get/set-if-absent/compare-and-swap sequences on the three real stores in random (also degenerate) configurations, times straddling every cleanup trigger; snapshot of entries and scheduling state compared with the model after every operation; answers compared with an independent abstract expiring map"),
